@@ -31,14 +31,22 @@ def gen_cases(rng, tier, rnd):
         case = {'spec': spec, 'rank': rank, 'abs': hx(a), 'log': rng.random() < 0.25}
         if rng.random() < 0.3:
             case['edit'] = edits.propose(rng, spec)     # minimise, edit the live object in place, minimise again
+        if rng.random() < 0.2:
+            case['prelude'] = edits.twin(rng, spec)      # a twin (other q0 or F) is minimised earlier in the same interpreter
         cases.append(case)
     return cases
 
 
 def run_case(case, env):
+    out = {'viol': [], 'evals': 0, 'ticks': 0, 'probes': {}, 'hist': {}}
+    if case.get('prelude'):
+        T = build(case['prelude'])
+        for op in OPS:
+            st, val, ticks = call(env, getattr(da, op), T)
+            out['ticks'] += ticks
+        out['probes']['earlier_calls_on_a_twin'] = 1
     D = build(case['spec'])
     fp = order_fingerprint(D, case.get('rank', {}))
-    out = {'viol': [], 'evals': 0, 'ticks': 0, 'probes': {}, 'hist': {}}
     res_digest = []
     nontrivial = False
     for phase in ['fresh'] + (['after-inplace-edit'] if case.get('edit') else []):
@@ -116,9 +124,10 @@ def run_case(case, env):
 
 def shrink(case):
     s = case['spec']
-    if case.get('edit'):
-        c = copy.deepcopy(case); del c['edit']
-        yield c
+    for key in ('edit', 'prelude'):
+        if case.get(key):
+            c = copy.deepcopy(case); del c[key]
+            yield c
     if case.get('log'):
         c = copy.deepcopy(case); c['log'] = False
         yield c
